@@ -71,7 +71,7 @@ class Ctx:
                 self.analysed[k] = analyze(db, self.inlined(db, b), self.models)
         return self.analysed[k]
 
-    def inlined(self, db, b, keep=()):
+    def inlined(self, db, b, keep=(), force=()):
         """`b` with calls to the crate's private (non-exported, unmodelled) helpers expanded (mirxf.inline_calls); helpers named in
         self.keep_calls / keep stay calls (a property that states its rule at such a call site says so)."""
         from .mirxf import inline_calls
@@ -79,32 +79,67 @@ class Ctx:
         skip = set(MODELS) | set(PURE_KEYS) | set(keep) | set(getattr(self, "keep_calls", ())) | KEEP_CALLS
 
         # a helper is private in every configuration that is loaded (the `internals` feature exports the builder API: it is API in F0 too)
-        api = set()
-        for d2 in self.dbs.values():
-            api |= {x["key"] for x in d2.bodies if x["kind"] in ("Fn", "AssocFn") and (x.get("vis") or {}).get("exported", True)}
+        ck = tuple(sorted(self.dbs))
+        if getattr(self, "_api_ck", None) != ck:
+            self._api = set()
+            for d2 in self.dbs.values():
+                self._api |= {x["key"] for x in d2.bodies if x["kind"] in ("Fn", "AssocFn") and (x.get("vis") or {}).get("exported", True)}
+            self._api_ck = ck
+        api = self._api
 
         def pred(cb, term, chain):
+            if cb["key"] in force:
+                return True
             return cb["key"] not in skip and cb["key"] not in api and not (cb.get("vis") or {}).get("exported", True)
         return inline_calls(db, b, pred)
 
-    def analysis_inl(self, cfg, key, entry_facts=None, split=False, keep=(), tag=""):
+    def analysis_inl(self, cfg, key, entry_facts=None, split=False, keep=(), tag="", force=()):
         """Analysis of `key` with the crate's private (non-exported, unmodelled) helper functions inlined at their call sites,
         so a method that was split into private helpers is judged as the code it runs.  split=True turns the loop-free normal CFG into a tree
         (one return block per path, no merged states).  The analysed body carries `inlined` (list of helper calls that were expanded)."""
         from .mirxf import inline_calls, treeify
         from .models import MODELS, PURE_KEYS
-        k = (cfg, key, "inl", split, tuple(sorted(keep)), tag)
+        k = (cfg, key, "inl", split, tuple(sorted(keep)), tag, tuple(sorted(force)))
         if k not in self.analysed:
             db = self.db(cfg)
             b = db.get(key)
             if b is None:
                 self.analysed[k] = None
             else:
-                b2 = self.inlined(db, b, keep)
+                b2 = self.inlined(db, b, keep, force)
                 if split:
                     b2 = treeify(b2)
                 self.analysed[k] = analyze(db, b2, self.models, entry_facts)
         return self.analysed[k]
+
+    def is_helper(self, cfg, b):
+        """`b` is a private helper whose code is judged inside its callers (it is inlined by `analysis`): rules that need the caller's
+        context (what happens after the helper returns) skip its standalone body."""
+        if b["kind"] not in ("Fn", "AssocFn") or b["key"] in KEEP_CALLS:
+            return False
+        from .models import MODELS, PURE_KEYS
+        if b["key"] in MODELS or b["key"] in PURE_KEYS:
+            return False
+        for d2 in self.dbs.values():
+            x = d2.get(b["key"])
+            if x is not None and (x.get("vis") or {}).get("exported", True):
+                return False
+        # only if somebody calls it (otherwise nothing would judge it)
+        db = self.db(cfg)
+        if not hasattr(self, "_called"):
+            self._called = {}
+        if cfg not in self._called:
+            called = set()
+            for b2 in db.bodies:
+                for blk in b2["mir"]["blocks"]:
+                    t = blk["term"]
+                    if t["k"] == "call" and t["f"].get("k") == "fn":
+                        for pth in (t["f"].get("res"), t["f"].get("def")):
+                            cb = db.by_path.get(pth) if pth else None
+                            if cb is not None and cb["key"] != b2["key"]:
+                                called.add(cb["key"])
+            self._called[cfg] = called
+        return b["key"] in self._called[cfg]
 
     def helpers_inlined_everywhere(self, cfg):
         """Keys of private helper functions: their code is judged inside each caller (analysis_inl)."""
